@@ -760,6 +760,19 @@ void Model::driver(int c, const wire::Msg &m) {
     std::vector<wire::Value> el;
     el.push_back(wire::Value::string(BUS));
     for (auto &n : activatable) el.push_back(wire::Value::string(n));
+    if (cfg_unspecified) {
+      // listed finding C14-reload-not-atomic: which service directories are in force is unspecified until the retry
+      Exp e;
+      e.from_bus = true;
+      e.m = wire::Msg::method_return(1, m.serial, U(c), {wire::Value::array("s", el)});
+      e.m.set_field(wire::F_SENDER, wire::Value::string(BUS));
+      e.ignore_body = true;
+      e.last = true;
+      e.what = "reply to ListActivatableNames";
+      e.prop = "C04";
+      emit_from_bus(c, e);
+      return;
+    }
     reply_ok(c, m, {wire::Value::array("s", el)}, true);
     return;
   }
@@ -862,6 +875,14 @@ void Model::driver(int c, const wire::Msg &m) {
     if (name != BUS && !activatable.count(name)) { reply_err(c, m, ""); probes["start_unknown_service"]++; return; }
     if (name == BUS || owner_of(name) >= 0) { reply_ok(c, m, {wire::Value::u32(2)}); probes["start_already_running"]++; return; }   // DBUS_START_REPLY_ALREADY_RUNNING
     activation_join(name, c, m, true);
+    return;
+  }
+  if (member == "ReloadConfig") {
+    if (!m.body.empty()) { reply_err(c, m, ""); return; }
+    // "ReloadConfig: request the bus to reload its configuration": limits, policy and service directories of the
+    // file now in place govern everything from here on; what connections already hold stays
+    if (has_next_cfg) { lim = lim_next; activatable = activatable_next; cfg_gen = 1; has_next_cfg = false; probes["config_reloaded"]++; }
+    reply_ok(c, m, {});
     return;
   }
   if (member == "GetId" && !m.body.empty()) { reply_err(c, m, ""); return; }
